@@ -21,6 +21,7 @@ REQUIRED_THEOREMS = ['CfVerif.C05.' + t for t in (
     # property clauses
     'accept_iff', 'add_config_without_link', 'rejected_sends_nothing',
     'create_enumerates', 'start_creates', 'accepted_vars_good', 'dangling_type_byte', 'memory_variable_create_raises',
+    'create_v1_single_message', 'logvariable_types_valid',
     'unpack_inverse', 'types_match_firmware',
     'ack_effect', 'ack_callbacks', 'flags_follow_acks', 'start_sent_on_create_ack',
     'readd_stable', 'resolved_stable', 'readd_live_counterexample',
@@ -30,9 +31,29 @@ REQUIRED_THEOREMS = ['CfVerif.C05.' + t for t in (
     'gen_cmd_select', 'gen_setup_elements', 'gen_packet_size', 'gen_split_arith', 'gen_create', 'gen_start_stop_delete', 'gen_unpack',
     'gen_add_config', 'gen_accept_reject', 'gen_log_misc', 'gen_rx_tests', 'gen_rx_effects', 'gen_cmds_distinct', 'gen_wire_constants',
     'gen_synclogger')]
-TRUSTED = ['harness/corr/c05.py extractor + correspondence + spec twin']
-ASSUMPTIONS = []
-RULE = ''
+TRUSTED = ['harness/corr/c05.py extractor + correspondence harness (fake cf at send_packet/link/platform/disconnected, non-blocking Queue) + spec twin',
+           'Spec/C05: firmware view of create/append messages (floor((len-2)/3) entries, logType low nibble = fetch type, high nibble = stored type), '
+           'log data packet layout blk ts24 values, effect of acknowledgements; cross-checked against harness/sim/crazyflie_device.py in search()',
+           'Base/Struct model of struct.unpack for <B <H <L <b <h <i <f <e; float32/FP16 values are carried as bit patterns (binary16/32 -> double '
+           'conversion inside struct is CPython\'s)',
+           'variable names abstracted to keys (a name not of the form group.name = a key absent from the table); Python dict = insertion-ordered map',
+           'queue.Queue is FIFO; Caller.call iterates over a copy; Caller.add_callback ignores duplicates']
+ASSUMPTIONS = ['single-threaded histories: operations of the user thread and packets from the incoming-packet thread are interleaved at operation '
+               'granularity, not inside create() (so a create ack processed between the create and append packets is outside the model)',
+               'period_in_ms is an integer (int(ms/10) modelled by truncating division); float periods are exercised only by search()',
+               'user callbacks do not raise and do not re-enter the log API',
+               'LogConfig attributes are changed only through the API (id is never None, period is not re-assigned)',
+               'one Crazyflie / one Log object',
+               'V1 (legacy) block creation is modelled and corresponded but not covered by create_enumerates (current protocol only)',
+               'raw-memory variables (add_memory) are outside create_enumerates: known finding D8']
+RULE = ('cases = histories (one fresh Log per case) of the operation vocabulary of Driver/C05.lean: corpus; 0..30/40/127..129 one-byte variables in V2 '
+        'and V1 (every create/append split point); single configurations around the acceptance boundaries (periods -20..2600 ms incl. 9/10/2549/2550, '
+        'payload 24..28, typed / default-typed / raw-memory / missing / malformed names / unknown types, idents > 255 and near 65535) followed by '
+        'create, acks and data packets with extreme values of every fetch type; random histories of <= 12 further operations over 1-3 configurations '
+        'incl. reconnect to the same or another table / protocol generation + re-add, SyncLogger sessions incl. re-use, acks with every command and '
+        'status incl. unknown ones, id-counter wrap-around, MAX_BLOCKS / MAX_VARIABLES exhaustion, malformed packets on channels 0-3. '
+        'The reply to EVERY operation (exception class, packets handed to send_packet with expected_reply, callbacks with arguments, decoded samples, '
+        'queue traffic, digest of all public state) is compared.  distinct = distinct request-line sequences; every case is non-trivial (>= 5 operations)')
 
 LOG = 'cflib/crazyflie/log.py'
 SYNC = 'cflib/crazyflie/syncLogger.py'
@@ -785,21 +806,84 @@ def gen_malformed_case(rng):
     return cs
 
 
+def gen_wrap_case(rng):
+    """more than 255 add_config calls: the id counter wraps ((c + 1) % 255) and ids collide; acks go to the first block with the id"""
+    cs = Case('idwrap')
+    els = make_toc(rng, 4)
+    for l in connect_lines(5, els):
+        cs.do(l)
+    cs.do('newconf 100')
+    cs.do('addvar 0 1 -')
+    cs.do('newconf 200')
+    cs.do('addvar 1 2 uint8_t')
+    for i in range(rng.choice([254, 255, 256, 300])):
+        cs.do('addconfig %d' % (i % 2))
+    for h in (0, 1):
+        cs.do('start %d' % h)
+        c = cs.r.confs[h]
+        cs.do('rx 1 %s' % hexs([6, c.id, 0]))
+        cs.do('rx 1 %s' % hexs([3, c.id, 0]))
+        cs.do(cs.data_line(rng, h, mangle=False))
+    cs.do('rx 1 %s' % hexs([2, rng.randrange(256), 0]))
+    return cs
+
+
+def gen_budget_case(rng):
+    """MAX_BLOCKS / MAX_VARIABLES checks of create(): many pending blocks, many variables"""
+    cs = Case('budget')
+    els = [(k, k, 'uint8_t') for k in range(26)]
+    for l in connect_lines(5, els):
+        cs.do(l)
+    nconf = rng.choice([17, 18, 6])
+    nvars = 3 if nconf > 6 else rng.choice([22, 25, 26])
+    for h in range(nconf):
+        cs.do('newconf 100')
+        for k in range(nvars):
+            cs.do('addvar %d %d uint8_t' % (h, k))
+        cs.do('addconfig %d' % h)
+    for h in range(nconf):
+        cs.do('start %d' % h)
+        if rng.random() < 0.3:
+            cs.do('rx 1 %s' % hexs([6, cs.r.confs[h].id, rng.choice([0, 12])]))
+        if rng.random() < 0.1:
+            cs.do('rx 1 %s' % hexs([2, cs.r.confs[h].id, 0]))
+    cs.do('start 0')
+    return cs
+
+
+def corpus_cases():
+    import glob
+    import json
+    import os
+    out = []
+    for f in sorted(glob.glob(os.path.join(os.path.dirname(os.path.dirname(os.path.abspath(__file__))), 'corpus', 'c05', '*.json'))):
+        d = json.load(open(f))
+        cs = Case('corpus')
+        for l in d['lines'][1:]:
+            cs.do(l)
+        out.append(cs)
+    return out
+
+
 def gen_cases(ctx):
     rng = ctx.rng
     th = ctx.tier == 'thorough'
-    cases = []
+    cases = corpus_cases()
+    for _ in range(4 if th else 1):
+        cases.append(gen_wrap_case(rng))
+    for _ in range(12 if th else 3):
+        cases.append(gen_budget_case(rng))
     for n in list(range(0, 31)) + [40, 127, 128, 129]:
         cases.append(gen_boundary_case(rng, n, True, rng.choice([0, 250, 65500])))
     for n in (0, 1, 13, 14, 15, 26, 27):
         cases.append(gen_boundary_case(rng, n, False, rng.choice([0, 245])))
-    for _ in range(1500 if th else 220):
+    for _ in range(9000 if th else 1500):
         cases.append(gen_accept_case(rng, v2=rng.random() < 0.85))
-    for _ in range(2500 if th else 300):
+    for _ in range(15000 if th else 2500):
         cases.append(gen_history_case(rng, rng.randrange(1, 13)))
-    for _ in range(600 if th else 100):
+    for _ in range(5000 if th else 800):
         cases.append(gen_sync_case(rng))
-    for _ in range(200 if th else 40):
+    for _ in range(1200 if th else 200):
         cases.append(gen_malformed_case(rng))
     return cases
 
@@ -824,6 +908,10 @@ def correspond(ctx):
             for o in (a.split(' ')[1][5:].split(';') if ' outs=' in a else []):
                 if o != '-':
                     ctx.count('out:' + o.split(':')[0])
+            if op == 'addconfig':
+                ctx.count('addconfig:' + ('accepted' if 'badd:' in a else 'nolink' if head == 'ok' else 'rejected:' + head[4:]))
+            if op == 'start' and head == 'ok':
+                ctx.count('start:msgs=%d' % a.count('tx:'))
             if a != b and bad is None:
                 bad = k
         ctx.case({'kind': c.kind, 'ops': c.lines[1:8]}, (c.kind, tuple(c.lines)))
